@@ -250,7 +250,73 @@ def machine_sig(cs):
         return "C17/gen/" + "+".join(sorted(set(cs["shape"])))
     return f"C17/{cs['fam']}/{cs['which']}"
 
+# ---------------------------------------------------------------- argument kinds (MC_C17k): tuple-kinded parameters
+def _kind_text(k):
+    return k["k"] if k["t"] == "leaf" else "(" + ",".join(_kind_text(e) for e in _seqk(k["e"])) + ")"
+def _seqk(x): return x if isinstance(x, list) else [x[str(i)] for i in range(1, len(x) + 1)] if isinstance(x, dict) else list(x)
+def _val_text(v):
+    if v["t"] == "leaf":
+        return {"u64": f"{v['n']}u64", "f64": f"{v['n']}.5", "string": '"s"'}[v["k"]]
+    return "(" + ", ".join(_val_text(e) for e in _seqk(v["e"])) + ")"
+def _pat(k, names):
+    if k["t"] == "leaf":
+        n = "abcdefgh"[len(names)]; names.append(n); return n
+    return "(" + ", ".join(_pat(e, names) for e in _seqk(k["e"])) + ")"
+
+def kind_family(rep, tier):
+    """every (tuple parameter kind, argument value) pair of MC_C17k: the machine `#Sum(t<K>)` destructures its argument and
+    returns the sum of the leaves; a value that is not of kind K (wrong arity at any level, wrong element kind, a scalar) must
+    be rejected before the machine starts.  Every call is made with the value written in place and through a variable."""
+    t = tlc.run("MC_C17k", "MC_C17k.cfg", workers=4, timeout=600)
+    if t.violations or not t.ok:
+        rep.fail("C17/model", "TLC reported a violation of the kind-matching laws: " + "; ".join(t.errors[:3]), {"log": t.log})
+    cases = sorted(t.cases, key=lambda c: json.dumps(c, sort_keys=True))
+    bykind = collections.defaultdict(list)
+    for c in cases: bykind[_kind_text(c["k"])].append(c)
+    reqs = []; meta = []
+    for kt, cl in sorted(bykind.items()):
+        names = []; pat = _pat(cl[0]["k"], names)
+        machine = (f"#Sum(t<{kt}>) => <u64>\n  \u251c :Start(t<{kt}>)\n  \u2514 :Done(out<u64>).\n\n"
+                   f"#Sum(t<{kt}>) -> :Start(t)\n  :Start({pat}) -> :Done({' + '.join(names)})\n  :Done(out) => out.")
+        for form in ("inplace", "variable"):
+            stmts = [machine]; tags = [None]
+            for i, c in enumerate(cl):
+                vt = _val_text(c["v"])
+                if form == "inplace": stmts.append(f"#Sum({vt})"); tags.append(c)
+                else:
+                    stmts.append(f"zv{i} := {vt}"); tags.append(None)
+                    stmts.append(f"#Sum(zv{i})"); tags.append(c)
+            reqs.append({"id": len(reqs), "mode": "session", "stmts": stmts, "opts": {"max_steps": 50}}); meta.append((kt, form, tags))
+    outs = execpool.run_requests(reqs, nworkers=8, timeout=300)
+    n = 0; okn = 0
+    for req, (resp, oc), (kt, form, tags) in zip(reqs, outs, meta):
+        replay = {"stmts": req["stmts"][:1], "kind": kt, "form": form}
+        if oc != "ok" or "steps" not in (resp or {}):
+            rep.fail(f"C17/argkind/host-{oc}", f"machine over {kt}: interpreter process {oc}", replay); continue
+        st0 = resp["steps"][0]
+        if st0.get("r") != "ok" or not (st0.get("shape") and st0["shape"][0].startswith("MechCode")):
+            rep.fail("C17/argkind/setup", f"the machine over {kt} is not accepted: {st0.get('p')} {st0.get('class')} {st0.get('msg')}", replay); continue
+        for stx, st, c in zip(req["stmts"], resp["steps"], tags):
+            if c is None: continue
+            n += 1
+            ok = st.get("r") == "ok"
+            rp = dict(replay, stmt=stx)
+            vk = "scalar" if c["v"]["t"] == "leaf" else f"arity{len(_seqk(c['v']['e']))}"
+            if c["ok"]:
+                want = ('num', 'u64', Fraction(c["sum"]))
+                got = absval.absval(st["v"]) if ok else None
+                if not ok: rep.fail(f"C17/argkind/{kt}/{form}/rejects-well-kinded", f"{stx!r} -> error {st.get('class')} although the value has kind {kt}", rp)
+                elif got != want: rep.fail(f"C17/argkind/{kt}/{form}/wrong-value", f"{stx!r} = {absval.short(got)}, expected {c['sum']}", rp)
+                else: okn += 1
+            else:
+                if ok: rep.fail(f"C17/argkind/{kt}/{form}/{vk}/accepted", f"{stx!r} = {absval.short(absval.absval(st['v']))} although the machine takes one argument of kind {kt}", rp)
+                else: okn += 1
+    log(f"[C17] argument kinds: {okn}/{n} invocations of tuple-kinded machines behave as MC_C17k states")
+    rep.cov.update({"argkind_invocations": n, "argkind_ok": okn})
+    return len(reqs)
+
 def run(rep, tier, seed):
+    nkind = kind_family(rep, tier)
     rnd = random.Random(seed)
     cfg = "MC_C17_quick.cfg" if tier == "quick" else "MC_C17_thorough.cfg"
     t = tlc.run("MC_C17", cfg, workers=16, timeout=3000)
@@ -378,7 +444,7 @@ def run(rep, tier, seed):
         raise tlc.TlcError(f"C17 negative control failed: {passed}/{tried} corrupted traces were rejected by Trace_C17")
 
     rep.cov.update({"states": t.generated, "transitions": max(t.generated - 1, 1), "distinct_states": t.distinct,
-                    "traces_validated_against_impl": ncalls + nruns, "machines": len(cases), "invocations_replayed": ncalls,
+                    "traces_validated_against_impl": ncalls + nruns + nkind, "machines": len(cases), "invocations_replayed": ncalls,
                     "machines_by_family": dict(collections.Counter(c["fam"] for c in cases)),
                     "exact_matched": tally["exact"], "limits_matched": tally["limit"], "rejects_matched": tally["reject"],
                     "paths_matched": tally["path"], "free_outcomes": tally["free"], "repeated_invocations_same": tally["repeat_same"],
